@@ -23,6 +23,28 @@ CLAIMED = {
     ),
 }
 
+CHAN = "DrfChannel, MCDrfChannel, DrfChannelTrace, Runs, TraceBase"
+CHAN_TECH = "TLA+ spec + TLC exhaustive model checking of the call-level channel model; TLC-simulated behaviours replayed on the real writer/reader; TLC trace validation of recorded histories"
+CHAN_NOTE = 'Trusted: TLC, the projection (raw h5py decode of rf_data / rf_data_index / attributes, numpy bit-level comparison of each stored element with a keyed PRF of its absolute index and with the documented fill value, sha1 of files), exact big-integer placement arithmetic in the harness for the model partition (itself checked by Placement.tla under C04). Sample indices are rebased per scenario (span < 2^31). Histories go through the public Python writer; '
+CLAIMED.update({
+    "C01": (CHAN, "E1: TLC exhausts all sequences of sessions, rf_write / rf_write_blocks (gaps, multi-file), rejected and empty calls, close and "
+            "properties regeneration over 4-5 file windows of unequal capacity in gapped and continuous mode, checking CleanCloseComplete, InWindow, "
+            "AppendOnly, FinalFrozen. E2: simulated behaviours of that model are executed on DigitalRFWriter/DigitalRFReader at three concrete "
+            "rate/cadence realisations of the model partition. E3: random real-scale configurations and histories; every finalized file is decoded "
+            "raw and every read on file/block/gap edges is judged by TLC against the specification's truth (C01-* clauses).", CHAN_NOTE + "the C-API replay driver is not built yet.", CHAN_TECH),
+    "C05": (CHAN, "RejectAtomic and AppendOnly are checked exhaustively on the model; on the implementation every malformed kind of call is "
+            "interleaved with valid ones, a byte-level hash of the channel directory and the getters are taken around each rejected call, final "
+            "files are re-hashed after every later call, and TLC validates the whole history (C05-* clauses).", CHAN_NOTE + "the C-API replay driver is not built yet.", CHAN_TECH),
+    "C08": (CHAN, "Reader answers (read, get_continuous_blocks, sub_channel reads, get_bounds, read_vector*, split/merge) are logged on all "
+            "interesting points and compared by TLC with functions of one specification state (ReadBlocks, ReadData, BoundsOf, VectorOK); the "
+            "Coherent invariant is model-checked.", CHAN_NOTE + "float conversion of read_vector is compared element-wise with numpy's conversion of the raw read.", CHAN_TECH),
+    "C11": (CHAN, "FinalGrows / FinalFrozen and the refusal branch of Place are model-checked for up to 3 sessions in 1-2 directories with starts "
+            "later than, before and inside recorded periods; the same histories and random real-scale ones run on the real writer, with "
+            "single-parameter mismatches, byte-level directory comparison and multi-directory readers, validated by TLC (C11-* clauses).", CHAN_NOTE, CHAN_TECH),
+    "C19": (CHAN, "The Counters invariant is model-checked; after every real call the getters, return value and last file/dir written are "
+            "compared by TLC with the specification's session record (C19-* clauses), excluding exactly the stale states the property excludes.", CHAN_NOTE, CHAN_TECH),
+})
+
 PENDING_REASON = "check not built yet in this round; the property is planned to be decided by the TLA+ module named in DESIGN.md section 5"
 
 
